@@ -2034,6 +2034,31 @@ INTRINSICS[numpy.logical_or] = _elementwise(_logical_or)
 INTRINSICS[numpy.logical_not] = _elementwise(_logical_not)
 INTRINSICS[numpy.maximum] = _elementwise(_np_maximum)
 INTRINSICS[numpy.minimum] = _elementwise(_np_minimum)
+def _np_isclose(a, b, rtol=1e-05, atol=1e-08, equal_nan=False):
+    if not is_sym(a) and not is_sym(b):
+        return bool(numpy.isclose(a, b, rtol=rtol, atol=atol))
+    ta, tb, _ = arith2(a, b)
+    ta = ta if ta.sort() == z3.RealSort() else z3.ToReal(ta)
+    tb = tb if tb.sort() == z3.RealSort() else z3.ToReal(tb)
+    d = ta - tb
+    absd = z3.If(d >= 0, d, -d)
+    absb = z3.If(tb >= 0, tb, -tb)
+    return Sym(absd <= const_real(float(atol)) + const_real(float(rtol)) * absb, bool)
+
+
+def _i_isclose(args, kw):
+    extra = {k: v for k, v in kw.items() if k in ("rtol", "atol", "equal_nan")}
+    if len(args) > 2:
+        extra.update(dict(zip(("rtol", "atol", "equal_nan"), args[2:])))
+    f = lambda a, b: _np_isclose(a, b, **extra)   # noqa: E731
+    for x in args[:2]:
+        if hasattr(x, "_symarray"):
+            from gsv import colsym
+            return colsym.elementwise(f, *args[:2])
+    return f(*args[:2])
+
+
+INTRINSICS[numpy.isclose] = _i_isclose
 INTRINSICS[numpy.fmax] = _elementwise(_np_maximum)     # differ from maximum only on NaN (outside the model)
 INTRINSICS[numpy.fmin] = _elementwise(_np_minimum)
 INTRINSICS[numpy.trunc] = _elementwise(_np_trunc)
